@@ -731,7 +731,13 @@ func (g *c03Gen) use(r *VRand, f *c03Flow, fwd bool) {
 	}
 	if !f.tcp && r.Chance(0.2) {
 		// the flow's userspace endpoint is torn down (NAT timeout of the endpoint, dialer death): tracking ends here
-		g.c(fmt.Sprintf("rel %s %d %s %d", hex.EncodeToString(sip[:]), sp, hex.EncodeToString(dip[:]), dp))
+		if r.Bool() {
+			// the endpoint tracked the pair in the other orientation: the entry to go is the REVERSED key of the pair
+			g.c(fmt.Sprintf("rel %s %d %s %d", hex.EncodeToString(dip[:]), dp, hex.EncodeToString(sip[:]), sp))
+			g.stats.Inc("op.rel.reversed")
+		} else {
+			g.c(fmt.Sprintf("rel %s %d %s %d", hex.EncodeToString(sip[:]), sp, hex.EncodeToString(dip[:]), dp))
+		}
 		g.stats.Inc("op.rel")
 	}
 	if !f.tcp && r.Chance(0.35) {
